@@ -1,0 +1,15 @@
+//go:build verif
+
+package graph
+
+// VerifYield, when set, is called at the scheduling points of the deterministic
+// simulation harness (before and after taking the producer lock). It only ever
+// parks the calling goroutine; it never changes what the code computes.
+// Compiled in with -tags verif only.
+var VerifYield func(site string)
+
+func verifYield(site string) {
+	if f := VerifYield; f != nil {
+		f(site)
+	}
+}
